@@ -183,8 +183,10 @@ theorem serverJoinOne_congr {c c' : Ctx} (h : CEq c c') (m : IrcMsg) (channelnam
   split
   · ceqs
   · rename_i tid _
+    rw [h.config, h.st.channels.length_eq]
     rcases getChan_cases h (chanToLower channelname) with ⟨h1, h2⟩ | ⟨ch, ch', h1, h2, hch, hk⟩
     · simp only [h1, h2, Option.getD_none, Option.isSome_none]
+      refine RRel.ite Iff.rfl (fun _ _ => by ceqs) (fun _ _ => ?_)
       have hchA : ChanEq { ({ name := channelname } : Channel) with nicks := AMap.set ({ name := channelname } : Channel).nicks (nickToLower pn) { chanop := !false } }
           { ({ name := channelname } : Channel) with nicks := AMap.set ({ name := channelname } : Channel).nicks (nickToLower pn) { chanop := !false } } :=
         ChanEq.ofFields rfl rfl rfl rfl ((MEq.nil).set _ rfl) rfl rfl rfl
@@ -194,6 +196,7 @@ theorem serverJoinOne_congr {c c' : Ctx} (h : CEq c c') (m : IrcMsg) (channelnam
       refine RRel.bind (rcChannel_congr hc1.st hchA) (fun rc rc' hrc => ?_)
       ceqs
     · simp only [h1, h2, Option.getD_some, Option.isSome_some]
+      refine RRel.ite Iff.rfl (fun _ _ => by ceqs) (fun _ _ => ?_)
       have hchA : ChanEq { ch with nicks := AMap.set ch.nicks (nickToLower pn) { chanop := !true } }
           { ch' with nicks := AMap.set ch'.nicks (nickToLower pn) { chanop := !true } } :=
         hch.withNicks (hch.nicks.set _ rfl)
